@@ -42,6 +42,8 @@ def run(chk, which, pid):
             if n == 1:
                 chk.sample({"kind": "TLC path replayed on a real server", "flavour": flavour, "steps": labels})
     chk.cov["paths_replayed"] = n
+    if which == "c17":
+        departures(chk, pid)
     # ---- the accept loop, the serving thread and close() as separate steps (RpycServerSteps), and their schedules on the real servers
     from harness.drivers import server_windows as sw
     from harness import linepause
@@ -80,6 +82,41 @@ def run(chk, which, pid):
     finally:
         linepause.shutdown()
     return n
+
+
+def departures(chk, pid):
+    """directed: idle clients of the thread-pool server leave in every way a departure can reach the server - end-of-stream seen
+    by a worker (TCP, graceful), error / hang-up seen by the polling thread (TCP reset; any unix-socket close) - while another
+    client stays: afterwards the server's tables and its poll set hold exactly the client that stayed"""
+    for transport in ("tcp", "unix"):
+        for how in ("graceful", "abrupt"):
+            fx = sc.ServerFixture("pool", transport, False)
+            try:
+                for name in ("stay", "go1", "go2"):
+                    fx.connect(name)
+                    fx.call(name)
+                import time
+                time.sleep(0.25)                 # everybody idle: all descriptors sit in the poll set
+                fx.leave("go1", how)
+                fx.leave("go2", how)
+                chk.evaluated()
+                chk.distinct(("departures", transport, how))
+                bad = None
+                if not sc.wait_for(lambda: fx.tracked() <= 1, 4):
+                    bad = ("left-behind:departures", "the server's table still holds %d connections, 1 client is connected" % fx.tracked())
+                elif not sc.wait_for(lambda: not fx.poll_leftovers(), 4):
+                    bad = ("poll-left-behind:departures", "the server's poll set still holds descriptor(s) %s of departed clients" % fx.poll_leftovers())
+                else:
+                    r = fx.call("stay")
+                    if r[0] != "ok" or r[1] != 2:
+                        bad = ("stay-not-served", "the client that stayed got %r" % (r,))
+                if bad:
+                    chk.violation("pool:" + bad[0], "%s [pool server, %s, two idle clients leave (%s) while a third stays] %s" % (
+                        pid, transport, how, bad[1]), {"flavour": "pool", "transport": transport, "how": how, "mode": "departures"})
+                else:
+                    chk.validated()
+            finally:
+                fx.teardown()
 
 
 def main():
